@@ -6,10 +6,10 @@ import SleapVerif.Model.Grid
 * `make_confmaps`: `cm = nan_to_num(exp(-((xv-x)² + (yv-y)²) / (2σ²)))`; a NaN coordinate makes the
   whole channel NaN and `nan_to_num` turns that into 0 — here: `none ↦ 0`.
 * `generate_confmaps`: flatten `(n_inst, n_nodes)` to channels, `σ' = sigma * output_stride`.
-* `make_multi_confmaps`: `cms = zeros; for p in points.reshape(samples*n_inst, …): cms =
-  maximum(cms, make_confmaps(p))` — a left fold of `max` from 0 over **all** rows of the
-  flattening (for `n_samples > 1` the samples are mixed by the broadcast; the datasets only ever
-  pass `n_samples = 1`).
+* `make_multi_confmaps` (since fix 372b25e): `cms = zeros; for i in range(n_inst): cms =
+  maximum(cms, make_confmaps(points_batch[:, i]))` — per sample a left fold of `max` from 0 over
+  its own animals (`multiConfmapsBatch`).  The pre-fix behaviour (samples mixed by a broadcast)
+  is kept only as `multiConfmapsBatchAsIs`, a regression record for F-C01.
 * `generate_multiconfmaps`: `instances[:, :num_instances]` first; the centroid variant has one
   node per animal (`unsqueeze(-2)`) and hence one channel.
 -/
@@ -65,10 +65,42 @@ def centroidConfmaps (exp : R → R) (cast : Nat → R) (sigma : R) (stride H W 
     (numInstances : Nat) (centroids : List (Option (R × R))) : List (List (List R)) :=
   multiConfmaps exp cast sigma stride H W numInstances 1 (centroids.map fun c => [c])
 
-/-- `generate_multiconfmaps` on a whole batch **as coded**: `points_batch.reshape(samples·n_inst, …)`
-is folded into a `(samples, …)` accumulator by a broadcasting `maximum`, so every sample receives
-the reduction over the animals of *all* samples. -/
+/-- `instance.view(n_samples, -1, 2)` of a rank-4 input: channel `a·n_nodes + c` is node `c` of
+animal `a` -/
+def flattenInst (animals : List (List (Option (R × R)))) : List (Option (R × R)) := animals.flatten
+
+/-- `generate_confmaps` on a rank-4 input `(n_inst, n_nodes, 2)` of one sample -/
+def confmaps4 (exp : R → R) (cast : Nat → R) (sigma : R) (stride H W : Nat)
+    (animals : List (List (Option (R × R)))) : List (List (List R)) :=
+  confmaps exp cast sigma stride H W (flattenInst animals)
+
+/-- `generate_confmaps` on a batch: `make_confmaps` broadcasts over the sample axis, every sample
+is drawn from its own keypoints -/
+def confmapsBatch (exp : R → R) (cast : Nat → R) (sigma : R) (stride H W : Nat)
+    (batch : List (List (Option (R × R)))) : List (List (List (List R))) :=
+  batch.map (confmaps exp cast sigma stride H W)
+
+/-- `generate_multiconfmaps` on a whole batch **as coded since 372b25e**:
+`for i in range(n_inst): cms = maximum(cms, make_confmaps(points_batch[:, i], …))` — the loop runs
+over the instance axis and keeps the sample axis, i.e. sample `b` folds `max` over its own first
+`num_instances` animals, starting from zeros. -/
 def multiConfmapsBatch (exp : R → R) (cast : Nat → R) (sigma : R) (stride H W : Nat)
+    (numInstances nNodes : Nat) (batch : List (List (List (Option (R × R))))) :
+    List (List (List (List R))) :=
+  batch.map fun animals =>
+    makeMultiConfmaps exp cast (gridVec W stride) (gridVec H stride) (sigma * cast stride) nNodes
+      (animals.take numInstances)
+
+/-- centroid variant on a batch -/
+def centroidConfmapsBatch (exp : R → R) (cast : Nat → R) (sigma : R) (stride H W : Nat)
+    (numInstances : Nat) (batch : List (List (Option (R × R)))) : List (List (List (List R))) :=
+  multiConfmapsBatch exp cast sigma stride H W numInstances 1 (batch.map fun cs => cs.map fun c => [c])
+
+/-- Regression record (F-C01, fixed in 372b25e): the reduction **as it was coded before the fix** —
+`points_batch.reshape(samples·n_inst, …)` folded into a `(samples, …)` accumulator by a
+broadcasting `maximum`, so every sample received the reduction over the animals of *all* samples.
+Models nothing in the current tree; kept so the counterexample stays machine-checked. -/
+def multiConfmapsBatchAsIs (exp : R → R) (cast : Nat → R) (sigma : R) (stride H W : Nat)
     (numInstances nNodes : Nat) (batch : List (List (List (Option (R × R))))) :
     List (List (List (List R))) :=
   let all := (batch.map (·.take numInstances)).flatten
